@@ -69,8 +69,8 @@ __CPROVER_ensures(SAMEL(__CPROVER_return_value.distance_from_plane, g_from) && S
 #define TT_DN FPX(TT(CUR, 1) + g_sf * (TT(NXT, 1) - TT(CUR, 1)))
 #define TT_LOCAL FPX(TT_UP + g_gf * (TT_DN - TT_UP))
 #define LEN_LOCAL FPX(TL(CUR) + g_sf * (TL(NXT) - TL(CUR)))
-#define HIT (fabs(g_from) < WB_INFINITY || g_along < WB_INFINITY)
-#define MEMBER (HIT && !(fabs(TH_LOCAL) < 2.0 * DBL_EPSILON) && !(TH_LOCAL < TT_LOCAL) && g_from >= TT_LOCAL && g_from <= TH_LOCAL && g_along >= 0.0 && g_along <= LEN_LOCAL)
+#define HIT (__CPROVER_fabs(g_from) < WB_INFINITY || g_along < WB_INFINITY)
+#define MEMBER (HIT && !(__CPROVER_fabs(TH_LOCAL) < 2.0 * DBL_EPSILON) && !(TH_LOCAL < TT_LOCAL) && g_from >= TT_LOCAL && g_from <= TH_LOCAL && g_along >= 0.0 && g_along <= LEN_LOCAL)
 /* the pre-tests as the code makes them, and the weakest sound form of the depth cut-off */
 #define SOUND_PRE (depth <= this_->maximum_depth && depth >= this_->starting_depth && g_inbox \
                    && depth <= (this_->starting_depth + this_->maximum_total_slab_length) + this_->maximum_slab_thickness)
